@@ -58,7 +58,7 @@ CHECKS = {
          "DESIGN.md §6 C14, §7"),
  "C17": ("model_checking",
          "exhaustive enumeration of value menus x tree shapes x memory layouts against an independent implementation",
-         "Every configuration of the stated finite menus is enumerated: leaf hash over the full product of boundary numbers and strings, node hash over all ordered pairs (incl. equal/adjacent/all-zero/all-ff) in both argument orders, output roots, L2 denoms, bridge addresses, root-from-proof for trees of 1-9 leaves at every position; each byte-slice input in all 3^n memory layouts (exact capacity / spare capacity with sentinel / sub-slices of one buffer). Oracle: repository value = independent implementation (own SHA3, pinned to Python hashlib vectors) = pinned vectors; result identical in every layout; every byte of every caller backing array unchanged; FinalizeTokenWithdrawal gives the same verdict for a valid claim under every layout of proofs/storage root/block hash; history independence: every ordered pair (thorough: triple) of root-from-proof calls from a 30-input menu (valid proofs, bit flips, swapped elements) and every ordered pair of node-hash argument pairs is run on one shared, in-place overwritten memory and each answer must be the independent implementation's for the bytes given.",
+         "Every configuration of the stated finite menus is enumerated: leaf hash over the full product of boundary numbers and strings, node hash over all ordered pairs (incl. equal/adjacent/all-zero/all-ff) in both argument orders, output roots, L2 denoms, bridge addresses, root-from-proof for trees of 1-9 leaves at every position; each byte-slice input in all 3^n memory layouts (exact capacity / spare capacity with sentinel / sub-slices of one buffer). Oracle: repository value = independent implementation (own SHA3, pinned to Python hashlib vectors) = pinned vectors; result identical in every layout; every byte of every caller backing array unchanged; FinalizeTokenWithdrawal accepts a claim that is valid by the documented formats for every bridge id x output index in {1,2}^2 and under every layout of proofs/storage root/block hash; history independence: every ordered pair (thorough: triple) of root-from-proof calls from a 30-input menu (valid proofs, bit flips, swapped elements) and every ordered pair of node-hash argument pairs is run on one shared, in-place overwritten memory and each answer must be the independent implementation's for the bytes given.",
          "Trusted: Go toolchain; the pinned vectors (generated once by vectors/gen_vectors.py with hashlib). Bounded: boundary values represent the 64-bit ranges; proof lists up to 4 elements.",
          "DESIGN.md §6 C17"),
  "C04": ("model_checking",
